@@ -2047,6 +2047,10 @@ class sMZgate(Gate):
     def __init__(self, phi_in, phi_ex):
         super().__init__([phi_in, phi_ex])
 
+    def merge(self, other):
+        # the internal phase is not additive: sMZ(a, e) sMZ(b, e) != sMZ(a + b, e), sMZ(0, e) != I
+        raise MergeFailure("Symmetric Mach-Zehnder gates cannot be merged.")
+
     def _decompose(self, reg, **kwargs):
         # into local phase shifts and two 50-50 beamsplitters
         return [
